@@ -118,6 +118,54 @@ pub fn c07(tier: Tier, _seed: u64) -> Prop {
     for p in p3 {
         units.push(prefix_unit(p, 8, 1));
     }
+    // ---- instruction sequences: every ordered pair over one benign representative per implemented row,
+    //      executed back to back in lock step (state carried from the first instruction into the second)
+    {
+        use crate::hv::e1::{Act, Next, StepObs};
+        use crate::hv::isa::{Fields, Sem, ROWS};
+        let reps: Vec<usize> = ROWS
+            .iter()
+            .enumerate()
+            .filter(|(_, r)| r.imp && !matches!(r.sem, Sem::Bcc { .. } | Sem::Jmp(_) | Sem::Jsr(_) | Sem::Bsr { .. } | Sem::Rts | Sem::Rte | Sem::Trapa))
+            .map(|(i, _)| i)
+            .collect();
+        let n = reps.len() as u64;
+        let reps2 = reps.clone();
+        let dom = format!("all {} x {} ordered pairs of benign representatives of every implemented non-control-flow form, x 2 register files, executed back to back in lock step with the reference (the second instruction sees the state the first one left)", n, n);
+        units.push(Unit::new("pairs", n, &dom, move |ctx, chunk| {
+            let enc = |ctx: &Ctx, row: usize, k: u32| -> Vec<u8> {
+                // benign fields: address register ER1/ER3 (point into RAM), data registers 2/4, small displacements
+                let f = Fields { rs: 2 + 8 * (k as u8 & 1), rd: 4, ra: 1 + 2 * (k as u8 & 1), bitn: 3, rn: 10, cc: 0, trap: 1, data: match ROWS[row].pat.matches('x').count() { 2 => 0x10, 4 => 0x0020, 6 => 0x000040, _ => 0x0000_0123 } };
+                let mut f = f;
+                // absolute forms: keep the address inside on-chip RAM / the @aa:8 page
+                if ROWS[row].name.contains("@aa:8") {
+                    f.data = 0x08;
+                } else if ROWS[row].name.contains("@aa:16") {
+                    f.data = 0xd040;
+                } else if ROWS[row].name.contains("@aa:24") {
+                    f.data = 0xffd060;
+                }
+                ctx.isa.encode(row, &f)
+            };
+            let a = reps2[chunk as usize];
+            for (bi, &b) in reps2.iter().enumerate() {
+                for rf in 0..2 {
+                    let mut code = enc(ctx, a, 0);
+                    code.extend(enc(ctx, b, 1));
+                    let end = dom::CODE_RAM + 0x200 + code.len() as u32;
+                    let mut init = Case::new(dom::CODE_RAM + 0x200, &[]);
+                    init.code_len = 0;
+                    init.image = vec![(init.pc, code)];
+                    init.er = regfile(rf);
+                    init.er[1] = dom::DATA_RAM + 0x100 | if rf == 1 { 0x4400_0000 } else { 0 };
+                    init.er[3] = dom::DATA_RAM + 0x180;
+                    init.er[7] = dom::STACK_RAM;
+                    init.ccr = (bi as u8).wrapping_mul(29);
+                    ctx.run_seq(&init, Act::Step, 2, &mut |o: &StepObs| if o.post_pc == end { Next::Stop } else { Next::Continue(Act::Step) });
+                }
+            }
+        }));
+    }
     Prop {
         id: "C07",
         level: "exploration",
